@@ -322,23 +322,19 @@ pub trait Allocator<VM: VMBinding>: Downcast {
     /// If it is, call `Collection::out_of_memory`.  Return true if the allocation request is an obvious OOM case, and false otherwise.
     fn handle_obvious_oom_request(&self, tls: VMThread, size: usize) -> bool {
         if self.get_context().gc_trigger.will_oom_on_alloc(size) {
-            if self
-                .get_context()
-                .alloc_options
-                .get_alloc_options()
-                .allow_oom_call
-            {
-                self.out_of_memory(tls);
-            }
+            self.out_of_memory(tls);
             return true;
         }
         false
     }
 
     /// Wrapper around [`Collection::out_of_memory`]. Used to set up relevant state and signal out
-    /// of memory errors.
+    /// of memory errors.  The VM is only notified if the allocation options allow it, but the
+    /// request is marked as failed either way, so that the slow path gives up and returns null.
     fn out_of_memory(&self, tls: VMThread) {
-        VM::VMCollection::out_of_memory(tls, AllocationError::HeapOutOfMemory);
+        if self.get_context().get_alloc_options().allow_oom_call {
+            VM::VMCollection::out_of_memory(tls, AllocationError::HeapOutOfMemory);
+        }
         // Relaxed store is fine since this is a thread-local boolean.
         self.get_context().thrown_oom.store(true, Ordering::Relaxed);
     }
